@@ -207,17 +207,22 @@ NUM = re.compile(r"^[-+]?(\d+\.?\d*|\.\d+)([eE][-+]?\d+)?$|^-?nan$|^-?inf$")
 def result_numbers(stdout, fmt):
     """the physics output of a run: for SLHA formats the entries of the result blocks, otherwise all numbers"""
     if fmt in (2, 3, 4):
-        want = {2: ("LOWEN",), 3: ("SPHENOLOWENERGY",), 4: ("GM2CALCOUTPUT",)}[fmt] + ("GM2CALCOUTPUT", "SPINFO")
-        nums, cur = [], None
+        # the entries this program writes: the a_mu slot of the format, GM2CalcOutput[0, 1] and its SPINFO[3, 4]; every other
+        # line of these blocks is the echo of the input's own entries (a spectrum generator's LOWEN / SPhenoLowEnergy block),
+        # whose spelling and repetition are layout.  An entry is looked up like the writer does: its first occurrence.
+        slots = {2: [("LOWEN", "6")], 3: [("SPHENOLOWENERGY", "21")], 4: []}[fmt] + [("GM2CALCOUTPUT", "0"), ("GM2CALCOUTPUT", "1")]
+        nums, cur, seen = [], None, set()
         for ln in stdout.splitlines():
             f = ln.split("#", 1)[0].split()
             if f and f[0].upper() == "BLOCK" and len(f) > 1:
                 cur = f[1].upper()
-            elif cur in want and len(f) >= 2:
-                if cur == "SPINFO" and f[0] not in ("3", "4"):
-                    continue        # 3 / 4 are this program's warnings / errors; the rest is the echo of the input's own SPINFO
-                nums.append("%s[%s]=%s" % (cur, f[0], " ".join(f[1:])))
-        return nums
+            elif cur is not None and len(f) >= 2:
+                if cur == "SPINFO" and f[0] in ("3", "4"):
+                    nums.append("%s[%s]=%s" % (cur, f[0], " ".join(f[1:])))
+                elif (cur, f[0]) in slots and (cur, f[0]) not in seen:
+                    seen.add((cur, f[0]))
+                    nums.append("%s[%s]=%s" % (cur, f[0], f[1].upper()))
+        return sorted(nums)
     return [t for t in re.split(r"[\s()%]+", stdout) if NUM.match(t)]
 
 
